@@ -329,3 +329,17 @@ package plugin
 //@   ensures E2 [C01]: result.Inner.Lifetime == imin(secs(65528), ceilMul(3 * maxInterval, secs(8)))
 //@   ensures E3 [C03]: 0 <= result.Inner.Lifetime && result.Inner.Lifetime <= secs(65528) && result.Inner.Lifetime % secs(8) == 0
 //@   opt safety [C01]
+
+//@ func NewMTU
+//@   assigns new heap(plugin.MTU)
+//@   ensures E1 [C01,C02]: result != nil && fresh(result) && star(result) == mtu
+//@   opt safety [C01]
+//@   opt frame [C01]
+
+//@ func NewCaptivePortal
+//@   assigns new heap(plugin.CaptivePortal), new heap(ndp.CaptivePortal)
+//@   ensures E1 [C01,C02]: (result1 == nil) == captiveOK(uri)
+//@   ensures E2 [C01,C02]: result1 == nil ==> result0 != nil && fresh(result0) && result0.Portal != nil && result0.Portal.URI == uri
+//@   ensures E3 [C02]: result1 != nil ==> result0 == nil
+//@   opt safety [C01]
+//@   opt frame [C01]
